@@ -18,6 +18,7 @@ def run(F, G, tier, seed):
     nullness.run_findderef(chk, F, CGw, nullness.WRITE_ENTRIES)
     nullness.run_dataderef(chk, F, CGw, nullness.WRITE_ENTRIES)
     nullness.run_childguard(chk, F, CGw, nullness.WRITE_ENTRIES)
+    nullness.run_npos(chk, F, CGw, nullness.WRITE_ENTRIES, minimum=1)
     return chk.finish(
         "Decides reader/writer agreement: every member the reading side fills is read by the writer and written under "
         "a label kind the reader accepts; endpoints, element multiplicity and order; output only through libxml2's "
